@@ -311,8 +311,9 @@ def describe(case):
 
 
 # ---------------------------------------------------------------- shared generators / reporting
-REGISTERED = ['length', 'identical_bytes', 'side_by_side_text', 'links', 'links_json', 'html_text_dmp',
+REGISTERED_STATIC = ['length', 'identical_bytes', 'side_by_side_text', 'links', 'links_json', 'html_text_dmp',
               'html_source_dmp', 'html_token']
+REGISTERED = REGISTERED_STATIC
 HTML_A = b'<html><head><title>Old</title></head><body><p>Hello old <a href="/x">link</a></p></body></html>'
 HTML_B = b'<html><head><title>New</title></head><body><p>Hello new <a href="/y">link</a> more</p></body></html>'
 
